@@ -372,12 +372,16 @@ func runC19(c *vk.Ctx) {
 		// pools) has seen nothing but that session there, while the in-process reference below inherits what the
 		// concurrent phase left behind.
 		if exe, err := os.Executable(); err == nil {
-			// up to eight sessions: first those that were refused a page (a limit that a measurement decides) or were
+			// up to eight sessions (thorough tier: three) per round: first those that were refused a page (a limit that a measurement decides) or were
 			// shown browse entries (paged content), then one by position (and one of the second application)
 			picked := map[int]bool{}
 			var picks []int
+			limit := 8
+			if !c.Quick() {
+				limit = 3 // 1500 rounds: three fresh processes per round are some 4500 in all
+			}
 			pick := func(j int) {
-				if !picked[j] && len(picks) < 8 {
+				if !picked[j] && len(picks) < limit {
 					picked[j] = true
 					picks = append(picks, j)
 				}
